@@ -375,6 +375,48 @@ func init() {
 		st := a[0].(IfaceVal).V.(ModelVal).Obj.(*StoreModel)
 		return e.newIterator(fn.Signature.Results().At(0).Type(), st, e.bytesOf(a[1]), true)
 	})
+	// explicit ranges on the raw store: start <= key < end (a nil bound is open)
+	rangeIter := func(reverse bool) func(e *Exec, r ModelVal, a []Value) Value {
+		return func(e *Exec, r ModelVal, a []Value) Value {
+			st := r.Obj.(*StoreModel)
+			var start, end []*Term
+			if sv := a[0].(SliceVal); sv.Arr != nil {
+				start = e.bytesOf(sv)
+			}
+			hasEnd := false
+			if sv := a[1].(SliceVal); sv.Arr != nil {
+				end = e.bytesOf(sv)
+				hasEnd = true
+			}
+			var items []*storeEntry
+			for _, en := range st.Entries {
+				in := e.tt.Not(e.lexLess(en.Key, start))
+				if hasEnd {
+					in = e.tt.And(in, e.lexLess(en.Key, end))
+				}
+				if e.branch(in) {
+					items = append(items, en)
+				}
+			}
+			for i := 1; i < len(items); i++ {
+				for j := i; j > 0; j-- {
+					if e.branch(e.lexLess(items[j].Key, items[j-1].Key)) {
+						items[j], items[j-1] = items[j-1], items[j]
+					} else {
+						break
+					}
+				}
+			}
+			if reverse {
+				for i, j := 0, len(items)-1; i < j; i, j = i+1, j-1 {
+					items[i], items[j] = items[j], items[i]
+				}
+			}
+			return IfaceVal{T: e.invokeSig.Results().At(0).Type(), V: ModelVal{Kind: "iter", Obj: &IterModel{Items: items}}}
+		}
+	}
+	modelMethods["store.Iterator"] = rangeIter(false)
+	modelMethods["store.ReverseIterator"] = rangeIter(true)
 	modelMethods["iter.Valid"] = func(e *Exec, r ModelVal, a []Value) Value {
 		it := r.Obj.(*IterModel)
 		return e.tt.Bool(it.Pos < len(it.Items))
